@@ -276,3 +276,6 @@ func verifSetNumCPU(n int)        {}
 func verifTraceStart()            {}
 func verifTraceEvent(kind string) {}
 func verifScheduleCheck(cpus int, stepEncoding int) {}
+
+func verifTraceAccesses(on bool) {}
+func verifRaceCheck()            {}
